@@ -22,7 +22,7 @@ From Coq Require Import List NArith ZArith Bool.
 From PyTrie.Base Require Import Bytes Result AMap.
 From PyTrie.Db Require Import ScratchDb.
 From PyTrie.Base Require Import Nibbles Rlp.
-From PyTrie.Hexary Require Import Raw Tree D D_safety D_read D_prune Refine_read Refine_write Refine_write_prune.
+From PyTrie.Hexary Require Import Raw Tree D D_safety D_read D_prune Refine_read Refine_write Refine_write_prune Refine_batch.
 From PyTrie.Hexary Require Tree_unique.
 Import ListNotations.
 Open Scope Z_scope.
@@ -95,6 +95,22 @@ Theorem C06_exact : forall H BNH, (forall x, length (H x) = 32%nat) -> BNH = H (
                t_root (pstate H m rc (trun ops)) = yp_root H J).
 Proof. exact Refine_write_prune.C01_D_pruning. Qed.
 Print Assumptions C06_exact.
+
+(* ... and after every history that also contains squash_changes blocks, committed or aborted *)
+Theorem C06_exact_batched : forall H BNH, (forall x, length (H x) = 32%nat) -> BNH = H (rlp_encode (RStr [])) ->
+  forall hs : list hop,
+  cf H (hist_bodies H (flat hs)) -> Forall (fun b => (blen b < 2 ^ 64)%N) (hist_bodies H (flat hs)) ->
+  let ops := map top_of (flat hs) in
+  exists m rc,
+    hrun H BNH hs (empty_trie BNH true) = (map hexpect hs, pstate H m rc (trun ops)) /\
+    represents H m (troot H (trun ops)) (trun ops) /\ content_addressed H m /\
+    (forall h, zget rc h = occR H (trun ops) h) /\
+    (forall h, amem m h = true <-> Z.lt 0%Z (occR H (trun ops) h)) /\
+    (forall k, fst (get BNH k (pstate H m rc (trun ops))) = Ok (spec_run ops (bytes_to_nibbles k))) /\
+    (forall J, Tree_unique.good_bindings J -> (forall q, nibs_ok q = true -> lookup J q = spec_run ops q) ->
+               t_root (pstate H m rc (trun ops)) = yp_root H J).
+Proof. exact Refine_batch.C01_D_pruning_batched. Qed.
+Print Assumptions C06_exact_batched.
 
 (* one API write preserves the exactness invariant [pinv] *)
 Print Assumptions write_refines_ps.
